@@ -17,5 +17,11 @@ def jobs(tier, seed):
     js = c05.jobs(tier, seed, t=2, prop="last_null", group="ldpc_last_repair_null",
                   funcs=["of_ldpc_staircase_get_control_parameter", "of_get_control_parameter", "of_ldpc_staircase_set_fec_parameters", "of_create_pchck_matrix_rfc5170_compliant",
                          "of_ldpc_staircase_build_repair_symbol", "of_build_repair_symbol"])
+    # points outside the advertised limits (N1 > n-k): they must be rejected (C09); should a change accept them, the claim must still be truthful
+    from ofvlib.core import Job
+    for (k, r, n1, sd) in ((1, 1, 4, 1), (2, 3, 4, 1), (3, 3, 4, 2), (2, 1, 6, 5), (3, 5, 6, 1)):
+        js.append(Job("last_null.outside_limits.k%d.r%d.N1_%d.seed%d" % (k, r, n1, sd), "ldpc_last_repair_null", "c05_ldpc_matrix.c", js[0].functions, repo_sources=c05.SRCS,
+                      defines={"OFV_T": 2, "OFV_ROLE": 3, "OFV_K": k, "OFV_R": r, "OFV_N1": n1, "OFV_SEED": sd, "OFV_MAY_REJECT": 1, "OPENFEC_VERIF_SPARSE_BLOCK": 64},
+                      unwind=110, object_bits=11, timeout=600, mem_gb=3, status="bounded", bound="(k, n-k, N1, seed) = (%d, %d, %d, %d), N1 > n-k" % (k, r, n1, sd)))
     # keep every even-N1 point and a third of the odd ones (control: the claim must be false there)
-    return [j for i, j in enumerate(js) if ".N1_4." in j.name or ".N1_6." in j.name or i % 3 == 0]
+    return [j for i, j in enumerate(js) if ".N1_4." in j.name or ".N1_6." in j.name or "outside" in j.name or i % 3 == 0]
